@@ -20,7 +20,7 @@ def run(ctx, rep):
     P = ctx.prog
     rep.explanation = ('Each interlock is located as an exit(EXIT_FAILURE) whose control-dependence guard (conjunction of dominating branch outcomes) contains exactly its documented override option and the documented '
                        'condition; on the sync path of main every interlock precedes the first content/parity-altering effect in dominance order; the lock is taken before the state is read.')
-    rep.rule('R-C14-1', 'each interlock exit is guarded by exactly its override option (and !is_diff where documented) plus its condition', 6)
+    rep.rule('R-C14-1', 'each interlock exit is guarded by exactly its override option (and !is_diff where documented) plus its condition', 4)
     rep.rule('R-C14-2', 'nothing altered before refusing: on the sync path lock -> state_read -> state_scan -> state_sync{parity_create, size interlock, parity_chsize, state_write, loop}', 6)
     rep.rule('R-C14-3', 'the lock is taken before state_read in every command branch and released after the command body; flock(LOCK_EX|LOCK_NB)', 3)
 
@@ -67,31 +67,8 @@ def run(ctx, rep):
     # short parity
     f = P.fn('state_sync')
     c3 = find_exit(f, [('state->opt.force_realloc', False), ('state->opt.force_full', False)], 'short-parity interlock (--force-full/--force-realloc)')
-    if c3 is not None:
-        gs = guards_of(f, c3)
-        rep.check(any('file_paritymax<used_paritymax' in a.replace(' ', '') and p for a, p in gs), 'R-C14-1', 'short-parity condition: file_paritymax < used_paritymax', c3.loc(), fmt(gs), function='state_sync', construct='short-parity condition')
-    # file_paritymax is the minimum over all levels: running-minimum idiom (first iteration of the level loop, or accumulator > new value)
-    if c3 is not None:
-        sts = [i for i in f.all_insts() if i.op == 'store' and f.expr(i.ops[1]) == '&file_paritymax' and f.const_of(i.ops[0]) is None]
-        okmin = len(sts) == 1 and f.loop_of(sts[0].block) is not None
-        det = ''
-        if okmin:
-            st_ = sts[0]
-            newv = f.expr(st_.ops[0])
-            lp = f.loop_of(st_.block)
-            # induction variable of the loop: the local compared with state->level in the loop header
-            hdr = f.expr(f.term(lp).ops[0]) if f.term(lp).op == 'br' and len(f.term(lp).ops) == 3 else ''
-            mm = re.match(r'^\((\w+)<state->level\)$', hdr.replace(' ', ''))
-            iv = mm.group(1) if mm else None
-            conds = set()
-            for pb in f.pred[st_.block]:
-                t = f.term(pb)
-                if t.op == 'br' and len(t.ops) == 3:
-                    conds.add(f.expr(t.ops[0]).replace(' ', ''))
-            want = {'(%s==0)' % iv, '(file_paritymax>%s)' % newv}
-            okmin = iv is not None and conds == want and 'parity_size' in ' '.join(c_.callee or '' for c_ in f.calls())
-            det = 'update guarded by %s' % sorted(conds)
-        rep.check(okmin, 'R-C14-1', 'short-parity interlock uses the minimum size over all parity levels', sts[0].loc() if sts else f.file, det, function='state_sync', construct='minimum over levels')
+    # the comparison itself (minimum over the levels of the whole blocks each file holds, against the used size) is decided by
+    # interpretation: R-C14-1p -- no expression-shape rule here
     # content/config mismatches: no option may disable them
     f = P.fn('state_read_content')
     for msg, label in (('Mismatching \'blocksize\'', 'blocksize mismatch interlock'), ('Mismatching \'hashsize\'', 'hashsize mismatch interlock'), ('not present in the configuration file', 'unknown disk interlock')):
